@@ -278,7 +278,12 @@ class World:
         ftab = {f.name: f for f in U.FIELDS[cls]}
         for fname, enc in spec.get("p", {}).items():
             f = ftab[fname]
-            kw[fname] = enc["raw"] if isinstance(enc, dict) and "raw" in enc else U.decode(f.vt, enc)
+            if isinstance(enc, dict) and "raw" in enc:
+                kw[fname] = enc["raw"]
+            elif isinstance(enc, dict) and "raw_tuple" in enc:
+                kw[fname] = tuple(enc["raw_tuple"])
+            else:
+                kw[fname] = U.decode(f.vt, enc)
         for fname, sub in spec.get("ch", {}).items():
             if isinstance(sub, list):
                 kw[fname] = tuple(self.build(s) for s in sub)
@@ -977,6 +982,8 @@ class Gen:
         coll(s)
         t = r.choice(nodes)
         kinds = ["origin", "prop", "noncompare", "class", "swap", "move", "dropchild", "none"]
+        if not self.cfg["rtc"] and self.cfg["prop"] == "C01":
+            kinds += ["retype", "retype"]
         m = r.choice(kinds)
         cls = t["c"]
         if m == "origin":
@@ -986,6 +993,22 @@ class Gen:
             if fs:
                 f = r.choice(fs)
                 t["p"][f.name] = self.value(f.vt)
+        elif m == "retype":
+            # an ==-equal value of another type (1 / True / 1.0): "equal values of equal types"
+            alt = {0: [False, 0.0], 1: [True, 1.0], 2: [2.0], 7: [7.0]}
+            for f in U.PROP_FIELDS[cls]:
+                if not (f.init and f.compare) or f.vt not in ("int", "float", "bool", "optint", "tint"):
+                    continue
+                cur = t["p"].get(f.name)
+                if f.vt == "tint" and isinstance(cur, list) and cur:
+                    t["p"][f.name] = {"raw_tuple": [alt.get(x, [x])[0] if not isinstance(x, bool) else int(x) for x in cur]}
+                    break
+                if isinstance(cur, (int, float)) and not isinstance(cur, bool) and cur in alt:
+                    t["p"][f.name] = {"raw": r.choice(alt[int(cur)])}
+                    break
+                if isinstance(cur, bool):
+                    t["p"][f.name] = {"raw": r.choice([int(cur), float(cur)])}
+                    break
         elif m == "noncompare" and cls == "Meta":
             t["p"]["note"] = self.value("str")
         elif m == "class" and cls in ("LeafA", "LeafB"):
@@ -1367,12 +1390,18 @@ def make_config(rseed: int, prop: str, tier: str, faults: bool) -> dict[str, Any
         # collision kit: strings that move a separator run from one field into its neighbour
         strpool = ["1):b=<class 'str'>(2", "3", "1", "2):b=<class 'str'>(3"] + r.sample(U.STR_POOL, 1)
     leafs = ["LeafA", "LeafB", "LeafA2", "Meta"]
-    extra = ["Vals", "Carrier", "Boom"]
+    extra = ["Vals", "Carrier", "Boom", "Serial", "Upper", "Lit", "Located", "Typed"]
     if prop in ("C01",):
         extra.append("FS")
+    if prop in ("C04", "C14") and r.random() < 0.85:
+        # Serial carries an init=False field with a per-instance default_factory value: duplicate() and
+        # deserialization re-run the factory (known findings C14 / C04) -- keep it to a minority of runs
+        extra.remove("Serial")
+    if prop == "C09":
+        leafs += ["Lit"]
     if prop == "C04":
         leafs += ["Vals", "Vals"]
-    leafs += r.sample(extra, r.choice([0, 1, 2, len(extra)]))
+    leafs += r.sample(extra, r.choice([0, 1, 2, 3, len(extra)]))
     if faults and "Boom" not in leafs and r.random() < 0.5:
         leafs.append("Boom")
     inner = r.sample(U.INNER_CLASSES, r.choice([2, 3, 5]))
@@ -1722,6 +1751,13 @@ def _check_roundtrip(self: World, snapshot: dict[str, Any], res: Any, plan: dict
         for f in U.PROP_FIELDS[s["cls"]]:
             got = repr(U.canon(getattr(r, f.name)))
             if got != s["props"][f.name]:
+                if not f.init and not f.compare:
+                    raise self.viol(
+                        "C04.4 roundtrip-property-value",
+                        "C04.4:noninit-noncompare",
+                        f"position {s['pos']} ({s['cls']}): non-init, non-comparable property {f.name} came back as {got}, was {s['props'][f.name]}",
+                        field=f.name,
+                    )
                 raise bad(
                     "C04.4 roundtrip-property-value",
                     f"C04.4:{f.vt}:{'noncompare' if not f.compare else 'compare'}",
@@ -1824,6 +1860,13 @@ def op_peer_roundtrip(self: World, op: dict[str, Any]) -> str:
                     bad = [n for n in a["props"] if a["props"][n] != b["props"].get(n)]
                     ft = {f.name: f for f in U.PROP_FIELDS[a["cls"]]}
                     detail = "props:" + ",".join(ft[n].vt for n in bad)
+                    if all(not ft[n].init and not ft[n].compare for n in bad):
+                        raise self.viol(
+                            "C04.4 roundtrip-property-value",
+                            "C04.4:noninit-noncompare",
+                            f"fresh process: position {a['pos']} ({a['cls']}): non-init, non-comparable property {bad[0]} came back as {b['props'].get(bad[0])}, was {a['props'][bad[0]]}",
+                            field=bad[0],
+                        )
                 raise self.viol(
                     "C04.13 fresh-process-roundtrip-differs",
                     f"C04.13:{detail}:{tag}",
